@@ -23,3 +23,12 @@ pub fn __repeat_char(c: char, n: usize) -> (r: String) ensures r@ == Seq::new(n 
 pub fn __string_trim_start(s: &String) -> (r: String) ensures r@ == str_trim_start(s@) { unimplemented!() }
 #[verifier::external_body]
 pub fn __push_str(s: &mut String, t: &str) ensures final(s)@ == old(s)@ + t@ { s.push_str(t) }
+
+// ---- final line feed of an updated document (generators/markdown.rs, fix F31)
+/// String::pop, result dropped
+#[verifier::external_body]
+pub fn __string_pop(s: &mut String) ensures old(s)@.len() > 0 ==> final(s)@ == old(s)@.drop_last(), old(s)@.len() == 0 ==> final(s)@ == old(s)@ { s.pop(); }
+/// the text every token gave (each line with its line feed), with the last line feed taken off again when the document has none
+pub open spec fn final_lf(doc: Seq<char>, text: Seq<char>) -> Seq<char> {
+    if !(doc.len() > 0 && doc.last() == '\n') && text.len() > 0 && text.last() == '\n' { text.drop_last() } else { text }
+}
